@@ -80,22 +80,50 @@ impl<'a> P<'a> {
 fn eval_sql(pred: &str, env: &[TV; 3]) -> Option<TV> { let mut p = P { t: lex(pred), i: 0 }; let v = p.or(env)?; if p.i != p.t.len() { return None; } Some(v) }
 
 fn check_history(h: &[Tree], label: &str) -> Option<Witness> {
-    let mut q = Query::select();
-    q.column(Alias::new("x")).from(Alias::new("t"));
-    for t in h { match build(t) { ConditionExpression::Condition(c) => { q.cond_where(c); } ConditionExpression::SimpleExpr(e) => { q.and_where(e); } } }
-    for (name, sql) in [("sqlite", q.to_string(SqliteQueryBuilder)), ("mysql", q.to_string(MysqlQueryBuilder).replace('`', "\"")), ("postgres", q.to_string(PostgresQueryBuilder))] {
-        let pred = sql.split(" WHERE ").nth(1);
+    // every statement kind whose predicate is built by repeated condition-adding calls: SELECT .. WHERE, .. HAVING, UPDATE, DELETE and the
+    // partial-index predicate of CREATE INDEX .. WHERE; (kind, keyword before the predicate, [(backend, sql)])
+    let a = |s: &str| Alias::new(s);
+    let mut kinds: Vec<(&str, &str, Vec<(&str, String)>)> = vec![];
+    {
+        let mut q = Query::select();
+        q.column(a("x")).from(a("t"));
+        for t in h { match build(t) { ConditionExpression::Condition(c) => { q.cond_where(c); } ConditionExpression::SimpleExpr(e) => { q.and_where(e); } } }
+        kinds.push(("SELECT", " WHERE ", vec![("sqlite", q.to_string(SqliteQueryBuilder)), ("mysql", q.to_string(MysqlQueryBuilder).replace('`', "\"")), ("postgres", q.to_string(PostgresQueryBuilder))]));
+    }
+    if h.len() >= 2 {
+        let mut q = Query::select();
+        q.column(a("x")).from(a("t"));
+        for t in h { match build(t) { ConditionExpression::Condition(c) => { q.cond_having(c); } ConditionExpression::SimpleExpr(e) => { q.and_having(e); } } }
+        kinds.push(("SELECT HAVING", " HAVING ", vec![("postgres", q.to_string(PostgresQueryBuilder))]));
+        let mut q = Query::update();
+        q.table(a("t")).value(a("x"), 1);
+        for t in h { match build(t) { ConditionExpression::Condition(c) => { q.cond_where(c); } ConditionExpression::SimpleExpr(e) => { q.and_where(e); } } }
+        kinds.push(("UPDATE", " WHERE ", vec![("postgres", q.to_string(PostgresQueryBuilder))]));
+        let mut q = Query::delete();
+        q.from_table(a("t"));
+        for t in h { match build(t) { ConditionExpression::Condition(c) => { q.cond_where(c); } ConditionExpression::SimpleExpr(e) => { q.and_where(e); } } }
+        kinds.push(("DELETE", " WHERE ", vec![("postgres", q.to_string(PostgresQueryBuilder))]));
+        let mut q = Index::create();
+        q.name("i").table(a("t")).col(a("x"));
+        for t in h { match build(t) { ConditionExpression::Condition(c) => { q.cond_where(c); } ConditionExpression::SimpleExpr(e) => { q.and_where(e); } } }
+        kinds.push(("CREATE INDEX", " WHERE ", vec![("postgres", q.to_string(PostgresQueryBuilder)), ("sqlite", q.to_string(SqliteQueryBuilder))]));
+    }
+    for (kind, kw, sqls) in kinds {
+      for (name, sql) in sqls {
+        let pred = sql.split(kw).nth(1);
         if h.is_empty() { if pred.is_some() { return Some(Witness { property: "C06", input: label.into(), observed: format!("{name}: {sql}"), expected: "no predicate".into() }); } continue; }
-        let pred = match pred { Some(p) => p, None => return Some(Witness { property: "C06", input: label.into(), observed: format!("{name}: no WHERE in {sql}"), expected: "a predicate".into() }) };
+        let all_true = h.iter().all(|t| [TV::T, TV::F, TV::U].iter().all(|x| sem(t, &[*x, *x, *x]) == TV::T) && sem(t, &[TV::F, TV::U, TV::T]) == TV::T);
+        let pred = match pred { Some(p) => p, None if all_true && kind != "SELECT" => continue, None => return Some(Witness { property: "C06", input: format!("{kind}: {label}"), observed: format!("{name}: no{kw}in {sql}"), expected: "a predicate".into() }) };
         let vals = [TV::T, TV::F, TV::U];
         for x in vals { for y in vals { for z in vals {
             let env = [x, y, z];
             let want = h.iter().fold(TV::T, |acc, t| and3(acc, sem(t, &env)));
             match eval_sql(pred, &env) {
                 Some(got) if got == want => {}
-                other => return Some(Witness { property: "C06", input: label.into(), observed: format!("{name}: WHERE {pred} evaluates to {other:?} under a,b,c = {env:?}"), expected: format!("{want:?}") }),
+                other => return Some(Witness { property: "C06", input: format!("{kind}: {label}"), observed: format!("{name}:{kw}{pred} evaluates to {other:?} under a,b,c = {env:?}"), expected: format!("{want:?}") }),
             }
         } } }
+      }
     }
     None
 }
